@@ -392,7 +392,7 @@ theorem eval_frame_modelled :
 
 /-- **The function library stays inside the frame** (regenerated): inside the 455+ methods of
 `formulaFuncs` the workbook `fn.f` is only used through readers, the evaluator itself
-(`CalcCellValue` with a fresh context, `parseReference`) and the options; it is never handed to
+(`cellResolver` in the running context — ANCHORARRAY, since repository fix 43a1923 —, `parseReference`) and the options; it is never handed to
 anything else, and no method assigns through its receiver or through a worksheet.  So the traces
 `eval_pure` quantifies over cover the library as well. -/
 theorem library_frame_modelled :
